@@ -129,6 +129,7 @@ func execG(t *testing.T, ch *vs.Choices, p *gProg, dir string, keepLog bool, par
 		}()
 		synctest.Test(t, func(t *testing.T) {
 			sim := vs.NewSim(ch)
+			sim.Strip = dir
 			sim.KeepLog = keepLog
 			sim.ParkMode = parkMode
 			sim.Strategy = vs.NewStrategy(ch, allowStrategies)
